@@ -1,5 +1,6 @@
 import Amgcl.Proofs.SchurExact
 import Amgcl.Proofs.Deflation
+import Amgcl.Model.CPR
 import Mathlib.Algebra.Order.Field.Rat
 import Amgcl.Proofs.InverseMatrix
 /-!
@@ -138,6 +139,8 @@ theorem Zd_ok (j : Nat) (hj : j < Zd.size) : (Zd.getD j #[]).size = 2 := by
 
 /-- a 4×4 scalar system with 2×2 blocks for the CPR statements (rows sorted) -/
 def Ac : CRS ℚ := ⟨4, #[[(0, 4), (1, 1), (2, -1)], [(0, 1), (1, 3), (3, 1)], [(0, -1), (2, 5), (3, 2)], [(1, 1), (2, 1), (3, 4)]]⟩
+theorem Ac_flags : (CPR.initScalar Ac 2 0).uninit = false ∧ (CPR.initScalar Ac 2 0).zeroPivot = false := by
+  decide +kernel
 theorem Ac_ok : Ac.sortedb = true ∧ (if (0 : Nat) = 0 then Ac.nrows else 0) = 2 * 2 := by decide
 
 end Amgcl.C18Ex
